@@ -257,7 +257,7 @@ func NewPool(b *Bins, n int) *Pool {
 	if n <= 0 {
 		n = 16
 	}
-	scratch, err := os.MkdirTemp("/dev/shm", "timc-")
+	scratch, err := os.MkdirTemp(envOr("VERIF_SCRATCH", "/dev/shm"), "timc-")
 	if err != nil {
 		scratch, _ = os.MkdirTemp("", "timc-")
 	}
@@ -348,8 +348,11 @@ func (p *Pool) start(idx int) (*worker, error) {
 
 func (w *worker) kill() {
 	if w.cmd != nil && w.cmd.Process != nil {
-		w.cmd.Process.Kill()
 		w.stdin.Close()
+		if os.Getenv("VERIF_PROF") != "" {
+			time.Sleep(300 * time.Millisecond)
+		}
+		w.cmd.Process.Kill()
 		w.cmd.Wait()
 		w.outF.Close()
 	}
